@@ -5,6 +5,8 @@ package bitcoin_reader
 import (
 	"context"
 	"net"
+
+	"github.com/google/uuid"
 )
 
 // RunWithConn runs the node over a caller supplied connection instead of dialing the node's
@@ -29,4 +31,26 @@ func (m *NodeManager) VerifSynchronizeBlocks(ctx context.Context,
 // TriggerBlockSynchronize, without running the node manager.
 func (m *NodeManager) VerifMarkStartupDelayComplete(ctx context.Context) {
 	m.markStartupDelayComplete(ctx)
+}
+
+// VerifAddNode puts a node under the manager's request routing (RequestHeaders, RequestTxs,
+// RequestBlock, SendTx) without dialing it. The node is run by the caller.
+func (m *NodeManager) VerifAddNode(node *BitcoinNode) {
+	m.Lock()
+	defer m.Unlock()
+
+	m.nodes = append(m.nodes, &nodeThread{node: node, id: node.ID()})
+}
+
+// VerifNodes returns the ids of the nodes under the manager's request routing, in scan order,
+// and the scan offset of the next request.
+func (m *NodeManager) VerifNodes() ([]uuid.UUID, int) {
+	m.Lock()
+	defer m.Unlock()
+
+	ids := make([]uuid.UUID, len(m.nodes))
+	for i, nt := range m.nodes {
+		ids[i] = nt.node.ID()
+	}
+	return ids, m.nextNodeOffset
 }
